@@ -727,3 +727,67 @@ def whole_value_stores(body, ty_pat):
         if c.dest and len(c.dest) == 2 and c.dest[1] == "*" and rx.search(body.locals[c.dest[0]]) and body.locals[c.dest[0]].lstrip().startswith("&"):
             out.append((c.where(), "store-of-call-result"))
     return out
+
+
+def decided_reachable(body, sinks, call_decider, switch_decider, max_states=50000):
+    """blocks of `sinks` reachable by a path-sensitive walk in which call_decider(Call) -> 0/1/None fixes the boolean result of
+    selected calls, switch_decider(bb, disc) -> target/None fixes selected discriminant switches, and constant-bool temporaries
+    (matches!/&&/|| lowering, `!`) are tracked."""
+    sinks = set(sinks)
+    hit = set()
+    calls_at = {c.bb: c for c in body.calls()}
+    seen = set()
+    work = [(0, ())]
+    while work and len(seen) < max_states:
+        bb, env = work.pop()
+        if (bb, env) in seen:
+            continue
+        seen.add((bb, env))
+        if bb in sinks:
+            hit.add(bb)
+        envd = dict(env)
+        for s in body.stmts(bb):
+            if len(s[0]) == 1:
+                r = s[1]
+                l = s[0][0]
+                if r[0] == "use" and r[1][0] == "k":
+                    v = body.kint(r[1])
+                    k = body.kconst(r[1])
+                    if k and k.get("ty") == "bool" and v is not None:
+                        envd[l] = v
+                    else:
+                        envd.pop(l, None)
+                elif r[0] == "use" and r[1][0] in ("c", "m") and len(r[1][1]) == 1 and r[1][1][0] in envd:
+                    envd[l] = envd[r[1][1][0]]
+                elif r[0] == "un" and r[1] == "Not" and r[2][0] in ("c", "m") and len(r[2][1]) == 1 and r[2][1][0] in envd:
+                    envd[l] = 1 - envd[r[2][1][0]]
+                else:
+                    envd.pop(l, None)
+        t = body.term(bb)
+        nxt = None
+        if t[0] == "call":
+            d = t[3][0]
+            v = call_decider(calls_at[bb]) if bb in calls_at else None
+            if v is None:
+                envd.pop(d, None)
+            else:
+                envd[d] = v
+        if t[0] == "switch":
+            op = t[1]
+            taken = None
+            d = body.disc_of_switch(bb)
+            if d:
+                taken = switch_decider(bb, d)
+            if taken is None and op[0] in ("c", "m") and len(op[1]) == 1 and op[1][0] in envd:
+                val = envd[op[1][0]]
+                taken = t[3]
+                for v, tgt in t[2]:
+                    if str(v).lstrip("-").isdigit() and int(v) == val:
+                        taken = tgt
+            nxt = [taken] if taken is not None else None
+        if nxt is None:
+            nxt = body.succ(bb)
+        fenv = tuple(sorted(envd.items()))
+        for n in nxt:
+            work.append((n, fenv))
+    return hit
